@@ -1,1 +1,364 @@
-(* Model/Roots.v -- stub, to be filled in *)
+(* Model/Roots.v -- src/polynomial/mod.rs:190-347 (Polynomial::roots, quadratic_solve, cubic_solve,
+   poly_solve, laguer), statement by statement, over a two-sorted arithmetic [RootArith]:
+   [RR] plays f64, [KK] plays Complex<f64>.  Definitions only.
+
+   ONE definition, two instances:
+   * [FloatRA tbl] (this file): RR = primitive binary64, KK = Complex float with the operators of
+     Model/Complex.v.  Everything is IEEE and evaluated bit-exactly by vm_compute, except the three
+     libm-backed primitives Complex::<f64>::sqrt / pow / polar, which are looked up in the ORACLE
+     TABLE [tbl] recorded from the implementation's own run by the cfg(ohsl_verif) hook
+     (DESIGN section 9).  A lookup that fails -- the model asks for a call the implementation never
+     made -- is the distinguished value [Panic Unwrap] (the failed `.unwrap()` of the table lookup);
+     no other path of this model produces [Unwrap], and the implementation never does, so an oracle
+     miss always shows up as a broken tie.
+   * [FieldRA ...] (Proofs/Roots.v): RR = KK = an abstract field, sqrt / cube root / sign choices as
+     Section functions: the theorems of Props/C10.v.
+
+   The model is of the REPAIRED code (fix 1e066e6: q = 0 in quadratic_solve; fix eb1fb9c: Cardano sign
+   choice); the pre-repair variants are [quadratic_solve_gen false] and [cubic_solve_gen false]
+   (Legacy/C10Refuted.v). *)
+From Coq Require Import List Arith Bool ZArith Floats Lia.
+From OV Require Import Base.Panic Base.Arith Model.Complex gen.Params.
+Import ListNotations.
+
+Record RootArith := {
+  RR : SArith;                        (* f64: + - * neg, /, sqrt, `n as f64`, == < <= *)
+  KK : Arith;                         (* Complex<f64>: + - * neg, /, ==, < (partial_cmp) *)
+  mkk : RR -> RR -> KK;               (* Cmplx::new( re, im ) *)
+  kre : KK -> RR;                     (* .real *)
+  kim : KK -> RR;                     (* .imag *)
+  kabs : KK -> RR;                    (* inherent Complex::<f64>::abs  (complex/mod.rs:270) *)
+  kconj : KK -> KK;                   (* conj() *)
+  kmulr : KK -> RR -> KK;             (* Complex * f64; f64 * Complex delegates to it (mod.rs:117-133) *)
+  kdivr : KK -> RR -> res KK;         (* Complex / f64 *)
+  rfabs : RR -> RR;                   (* f64::abs *)
+  rmax : RR -> RR -> RR;              (* f64::max *)
+  rhalf : RR;                         (* the literal 0.5 *)
+  reps : RR;                          (* f64::EPSILON *)
+  rfrac : list RR;                    (* laguer's frac[] (gen/Params.v) *)
+  kfinite : KK -> bool;               (* both components finite (trace only; never read by the algorithm) *)
+  rfinite : RR -> bool;               (* finite (trace only) *)
+  osqrt : KK -> res KK;               (* Complex::<f64>::sqrt   -- libm: oracle *)
+  opow : KK -> KK -> res KK;          (* Complex::<f64>::pow    -- libm: oracle *)
+  opolar : RR -> RR -> res KK;        (* Complex::<f64>::polar  -- libm: oracle *)
+}.
+
+Inductive lexit := Converged | Stalled | Exhausted.
+
+(* result of one laguer call: final iterate, exit reason, value of `*iterations`, the iterate on entry, finiteness of the
+   iterate on entry and on exit, sanity of the convergence test (the last three are trace only) *)
+Record lres (X : Type) := mkL { lx : X; lwhy : lexit; liters : nat; lx_in : X; lfin_in : bool; lfinite : bool; ltest_ok : bool }.
+Arguments mkL {X}. Arguments lx {X}. Arguments lwhy {X}. Arguments liters {X}. Arguments lx_in {X}. Arguments lfin_in {X}. Arguments lfinite {X}.
+Arguments ltest_ok {X}.    (* false iff the exit is Converged and the bound `err` of the test |p(x)| <= err was not finite *)
+
+Section Model.
+Context (RA : RootArith).
+Notation R := (T (SA (RR RA))).
+Notation K := (T (KK RA)).
+
+Definition rlit (n : nat) : R := of_nat n.          (* float literals 2. 3. 4. 9. 18. 27. and `m as f64` *)
+Definition MAXIT : nat := LAGUER_MT * LAGUER_MR.
+
+(* ---- quadratic_solve (mod.rs:214-224).  fixed = true: the repaired q = 0 branch. ---- *)
+Definition quadratic_solve_gen (fixed : bool) (a b c : K) : res (list K) :=
+  (* let discriminant = b * b - 4.0 * a * c; *)
+  let disc : K := sub (mul b b) (mul (kmulr RA a (rlit 4)) c) in
+  (* let mut sgn = ( b.conj() * discriminant.sqrt() ).real; *)
+  let* s1 := osqrt RA disc in
+  let sgn0 : R := kre RA (mul (kconj RA b) s1) in
+  (* if sgn >= 0.0 { sgn = 1.0; } else { sgn = -1.0; } *)
+  let sgn : R := if leb zero sgn0 then one else neg one in
+  (* let q = - 0.5 * ( b + discriminant.sqrt() * sgn ); *)
+  let* s2 := osqrt RA disc in
+  let q : K := kmulr RA (add b (kmulr RA s2 sgn)) (neg (rhalf RA)) in
+  (* roots[0] = q / a; *)
+  let* r0 := div q a in
+  (* roots[1] = if q == Cmplx::zero() { roots[0] } else { c / q };     (legacy: c / q) *)
+  let* r1 := if fixed && eqb q zero then Ok r0 else div c q in
+  Ok [r0; r1].
+Definition quadratic_solve := quadratic_solve_gen true.
+
+(* ---- cubic_solve (mod.rs:227-248) ---- *)
+(* d0, d1 and the radicand  - 27. * a * a * dis  (= d1^2 - 4 d0^3) *)
+Definition cubic_disc (a b c d : K) : K * K * K :=
+  let a2 : K := mul a a in let b2 : K := mul b b in let c2 : K := mul c c in let d2 : K := mul d d in
+  (* dis = 18.*a*b*c*d - 4.*b*b2*d + b2*c2 - 4.*a*c2*c - 27.*a2*d2 *)
+  let t1 : K := mul (mul (mul (kmulr RA a (rlit 18)) b) c) d in
+  let t2 : K := mul (mul (kmulr RA b (rlit 4)) b2) d in
+  let t3 : K := mul b2 c2 in
+  let t4 : K := mul (mul (kmulr RA a (rlit 4)) c2) c in
+  let t5 : K := mul (kmulr RA a2 (rlit 27)) d2 in
+  let dis : K := sub (sub (add (sub t1 t2) t3) t4) t5 in
+  (* d0 = b2 - 3.*a*c ;  d1 = 2.*b2*b - 9.*a*b*c + 27.*a2*d *)
+  let d0 : K := sub b2 (mul (kmulr RA a (rlit 3)) c) in
+  let d1 : K := add (sub (mul (kmulr RA b2 (rlit 2)) b) (mul (mul (kmulr RA a (rlit 9)) b) c))
+                    (mul (kmulr RA a2 (rlit 27)) d) in
+  (d0, d1, mul (mul (kmulr RA a (neg (rlit 27))) a) dis).
+
+(* the sign test of `base`.  conj_sign = true: the repaired code (fix eb1fb9c),
+   `( d1.conj() * sqrt ).real < 0.0`; conj_sign = false: the pre-repair `d1 < Cmplx::zero()`
+   (lexicographic PartialOrd), kept for Legacy/C10Refuted.v. *)
+Definition cubic_minus (conj_sign : bool) (d1 sq : K) : bool :=
+  if conj_sign then ltb (kre RA (mul (kconj RA d1) sq)) zero else ltb d1 zero.
+
+Definition cubic_solve_gen (conj_sign : bool) (a b c d : K) : res (list K) :=
+  let '(d0, d1, rad) := cubic_disc a b c d in
+  let three_a : K := kmulr RA a (rlit 3) in
+  if eqb d0 zero && eqb d1 zero then
+    (* roots[0] = -b / ( 3. * a ); roots[1] = roots[0]; roots[2] = roots[0]; *)
+    let* r := div (neg b) three_a in Ok [r; r; r]
+  else
+    (* let sqrt = (- 27. * a * a * dis).sqrt(); *)
+    let* sq := osqrt RA rad in
+    (* let base = if ( d1.conj() * sqrt ).real < 0.0 { d1 - sqrt } else { d1 + sqrt } / 2.; *)
+    let* base := kdivr RA (if cubic_minus conj_sign d1 sq then sub d1 sq else add d1 sq) (rlit 2) in
+    (* let k = base.pow( &Cmplx::new( 1. / 3.0, 0.0 ) ); *)
+    let* third := div (one : R) (rlit 3) in
+    let* k := opow RA base (mkk RA third zero) in
+    (* roots[0] = -(b + k + d0 / k) / ( 3. * a ); *)
+    let* q0 := div d0 k in
+    let* r0 := div (neg (add (add b k) q0)) three_a in
+    (* let u = Cmplx::new( -0.5, (3.0_f64).sqrt() / 2.0 ); *)
+    let* ui := div (sqrt (rlit 3)) (rlit 2) in
+    let u : K := mkk RA (neg (rhalf RA)) ui in
+    (* roots[1] = -(b + u * k + d0 / ( u * k ) ) / ( 3. * a ); *)
+    let uk : K := mul u k in
+    let* q1 := div d0 uk in
+    let* r1 := div (neg (add (add b uk) q1)) three_a in
+    (* let u2 = u * u; roots[2] = -(b + u2 * k + d0 / ( u2 * k ) ) / ( 3. * a ); *)
+    let u2 : K := mul u u in
+    let u2k : K := mul u2 k in
+    let* q2 := div d0 u2k in
+    let* r2 := div (neg (add (add b u2k) q2)) three_a in
+    Ok [r0; r1; r2].
+Definition cubic_solve := cubic_solve_gen true.
+
+(* trace only (known-finding key KF-C10-F): the two cancellations of the unpolished Cardano path.
+   fst: the discriminant `dis` -- evaluated by the expanded formula 18abcd - 4b^3 d + b^2 c^2 - 4ac^3 - 27a^2 d^2 --
+        is the result of catastrophic cancellation, |dis| * 2^16 < the largest of its five terms (near a multiple root);
+   snd: one of the sums  b + u^j k + d0/(u^j k)  cancels, |sum| * 2^16 < its largest term (roots of very different size).
+   Never read by the algorithm. *)
+Definition cubic_diag (a b c d : K) : res (bool * bool) :=
+  let a2 : K := mul a a in let b2 : K := mul b b in let c2 : K := mul c c in let d2 : K := mul d d in
+  let t1 : K := mul (mul (mul (kmulr RA a (rlit 18)) b) c) d in
+  let t2 : K := mul (mul (kmulr RA b (rlit 4)) b2) d in
+  let t3 : K := mul b2 c2 in
+  let t4 : K := mul (mul (kmulr RA a (rlit 4)) c2) c in
+  let t5 : K := mul (kmulr RA a2 (rlit 27)) d2 in
+  let dis : K := sub (sub (add (sub t1 t2) t3) t4) t5 in
+  let big : R := rmax RA (rmax RA (rmax RA (kabs RA t1) (kabs RA t2)) (rmax RA (kabs RA t3) (kabs RA t4))) (kabs RA t5) in
+  let two20 : R := rlit 65536 in
+  let dis_c := ltb (mul (kabs RA dis) two20) big in
+  let '(d0, d1, rad) := cubic_disc a b c d in
+  if eqb d0 zero && eqb d1 zero then Ok (dis_c, false) else
+  let* sq := osqrt RA rad in
+  let* base := kdivr RA (if cubic_minus true d1 sq then sub d1 sq else add d1 sq) (rlit 2) in
+  let* third := div (one : R) (rlit 3) in
+  let* k := opow RA base (mkk RA third zero) in
+  let* ui := div (sqrt (rlit 3)) (rlit 2) in
+  let u : K := mkk RA (neg (rhalf RA)) ui in
+  let cancels (w : K) : res bool :=
+    let* q := div d0 w in
+    let sum : K := add (add b w) q in
+    Ok (ltb (mul (kabs RA sum) two20) (rmax RA (rmax RA (kabs RA b) (kabs RA w)) (kabs RA q))) in
+  let* c0 := cancels k in let* c1 := cancels (mul u k) in let* c2' := cancels (mul (mul u u) k) in
+  Ok (dis_c, c0 || c1 || c2').
+
+(* ---- laguer (mod.rs:306-346) ---- *)
+(* the inner loop `for j in (0..m).rev()`: state (b, err, d, f) *)
+Definition horner_body (a : list K) (x : K) (abx : R) (j : nat) (s : K * R * K * K) : res (K * R * K * K) :=
+  let '(b, err, d, f) := s in
+  let* aj := rd a j in
+  let f' : K := add (mul x f) d in           (* f = *x * f + d; *)
+  let d' : K := add (mul x d) b in           (* d = *x * d + b; *)
+  let b' : K := add (mul x b) aj in          (* b = *x * b + a[j]; *)
+  let err' : R := add (kabs RA b') (mul abx err) in   (* err = b.abs() + abx * err; *)
+  Ok (b', err', d', f').
+
+Definition horner3 (a : list K) (m : nat) (x : K) : res (K * R * K * K) :=
+  let* am := rd a m in
+  for_rev 0 m (horner_body a x (kabs RA x)) (am, kabs RA am, zero, zero).
+
+(* one pass of the body of `for iter in 1..MAXIT`: inl = `return` (with the reason), inr = next x *)
+Definition laguer_step (a : list K) (m : nat) (iter : nat) (x : K) : res (lexit * bool + K) :=
+  let* st := horner3 a m x in
+  let '(b, err, d, f) := st in
+  let abx : R := kabs RA x in
+  let err : R := mul err (reps RA) in                         (* err *= EPS; *)
+  if leb (kabs RA b) err then Ok (inl (Converged, rfinite RA err)) else          (* if b.abs() <= err { return; } *)
+  let* g := div d b in                                         (* let g = d / b; *)
+  let g2 : K := mul g g in
+  let* fb := div f b in
+  let h : K := sub g2 (kmulr RA fb (rlit 2)) in                (* h = g2 - 2. * ( f / b ) *)
+  let* m1 := usub m 1 in
+  (* sq = ( ( h * (m as f64) - g2 ) * ( m - 1 ) as f64 ).sqrt() *)
+  let* sq := osqrt RA (kmulr RA (sub (kmulr RA h (rlit m)) g2) (rlit m1)) in
+  let gp : K := add g sq in
+  let gm : K := sub g sq in
+  let abp : R := kabs RA gp in
+  let abm : R := kabs RA gm in
+  let gp : K := if ltb abp abm then gm else gp in              (* if abp < abm { gp = gm; } *)
+  let* dx := if ltb zero (rmax RA abp abm)                      (* if f64::max( abp, abm ) > 0.0 *)
+             then div (mkk RA (rlit m) zero) gp
+             else opolar RA (add one abx) (rlit iter) in
+  let x1 : K := sub x dx in
+  if eqb x x1 then Ok (inl (Stalled, true)) else                        (* if *x == x1 { return; } *)
+  if negb (iter mod LAGUER_MT =? 0) then Ok (inr x1)            (* if iter % MT != 0 { *x = x1; } *)
+  else let* fr := rd (rfrac RA) (iter / LAGUER_MT) in           (* else { *x -= dx * frac[ iter / MT ]; } *)
+       Ok (inr (sub x (kmulr RA dx fr))).
+
+(* `for iter in 1..MAXIT`: fuel = number of iterations left; falling out of the loop is [Exhausted] *)
+Fixpoint laguer_loop (a : list K) (m : nat) (x0 : K) (fin0 : bool) (fuel iter : nat) (x : K) : res (lres K) :=
+  match fuel with
+  | 0 => Ok (mkL x Exhausted (iter - 1) x0 fin0 (kfinite RA x) true)
+  | S fuel' =>
+      let* o := laguer_step a m iter x in
+      match o with
+      | inl (why, tok) => Ok (mkL x why iter x0 fin0 (kfinite RA x) tok)
+      | inr x' => laguer_loop a m x0 fin0 fuel' (S iter) x'
+      end
+  end.
+
+Definition laguer (a : list K) (x : K) : res (lres K) :=
+  let* m := usub (length a) 1 in            (* let m = a.size() - 1; *)
+  laguer_loop a m x (kfinite RA x) (MAXIT - 1) 1 x.
+
+(* ---- forward deflation (mod.rs:290-295): returns the new `ad` and the final `b` ---- *)
+Definition deflate_body (x : K) (jj : nat) (s : list K * K) : res (list K * K) :=
+  let '(ad, b) := s in
+  let* c := rd ad jj in                     (* let c = ad[jj]; *)
+  let* ad' := upd ad jj b in                (* ad[jj] = b; *)
+  Ok (ad', add (mul x b) c).                (* b = x * b + c; *)
+
+Definition deflate (ad : list K) (j : nat) (x : K) : res (list K * K) :=
+  let* b := rd ad (j + 1) in                (* b = ad[ j + 1 ]; *)
+  for_rev 0 (j + 1) (deflate_body x) (ad, b).
+
+(* real-axis snapping (mod.rs:286-288) *)
+Definition snap (x : K) : K :=
+  if leb (rfabs RA (kim RA x)) (mul (mul (rlit 2) (reps RA)) (rfabs RA (kre RA x)))
+  then mkk RA (kre RA x) zero else x.
+
+(* `ad_v = zeros(j+2); for jj in 0..j+2 { ad_v[jj] = ad[jj]; }`: the first j+2 entries, Index panic
+   exactly when ad is shorter *)
+Definition take_checked (ad : list K) (n : nat) : res (list K) :=
+  if n <=? length ad then Ok (firstn n ad) else Panic Index.
+
+(* one pass of `for j in (0..degree).rev()`; state (ad, poly_roots, trace) *)
+Definition solve_body (j : nat) (s : list K * list K * list (lres K)) : res (list K * list K * list (lres K)) :=
+  let '(ad, roots, tr) := s in
+  let* ad_v := take_checked ad (j + 2) in
+  let* l := laguer ad_v zero in             (* let mut x = Cmplx::zero(); Self::laguer( &mut ad_v, &mut x, &mut its ); *)
+  let x : K := snap (lx l) in
+  let* roots' := upd roots j x in           (* poly_roots[j] = x; *)
+  let* db := deflate ad j x in
+  Ok (fst db, roots', tr ++ [l]).
+
+(* one pass of the polishing loop `for j in 0..degree` *)
+Definition polish_body (a : list K) (j : nat) (s : list K * list (lres K)) : res (list K * list (lres K)) :=
+  let '(roots, tr) := s in
+  let* x := rd roots j in
+  let* l := laguer a x in                   (* Self::laguer( &mut a, &mut poly_roots[j], &mut its ); *)
+  let* roots' := upd roots j (lx l) in
+  Ok (roots', tr ++ [l]).
+
+(* ---- poly_solve (mod.rs:253-304): the roots and the trace of every laguer call, in call order ---- *)
+Definition poly_solve (coeffs : list K) (refine : bool) : res (list K * list (lres K)) :=
+  let* degree := usub (length coeffs) 1 in                   (* coeffs.size() - 1 *)
+  let roots : list K := repeat zero degree in                 (* Vector::zeros( degree ) *)
+  if degree =? 0 then Panic Guard else                        (* panic!( "... degree must be at least one." ) *)
+  let* roots :=
+    if degree =? 1 then
+      let* c0 := rd coeffs 0 in let* c1 := rd coeffs 1 in
+      let* r := div (neg c0) c1 in upd roots 0 r              (* poly_roots[0] = - coeffs[0] / coeffs[1]; *)
+    else Ok roots in
+  let* roots :=
+    if degree =? 2 then
+      let* a := rd coeffs 2 in let* b := rd coeffs 1 in let* c := rd coeffs 0 in
+      quadratic_solve a b c
+    else Ok roots in
+  let* roots :=
+    if degree =? 3 then
+      let* a := rd coeffs 3 in let* b := rd coeffs 2 in let* c := rd coeffs 1 in let* d := rd coeffs 0 in
+      cubic_solve a b c d
+    else Ok roots in
+  let* rt :=
+    if 3 <? degree then
+      let* s := for_rev 0 degree solve_body (coeffs, roots, []) in
+      Ok (snd (fst s), snd s)
+    else Ok (roots, []) in
+  if refine then for_ 0 degree (polish_body coeffs) rt else Ok rt.
+
+End Model.
+
+
+(* ================= the float instance: IEEE + oracle table ================= *)
+From OV Require Import Base.Flat Inst.FloatInst.
+
+(* The oracle table is a flat list of floats, seven per recorded call:
+     which (0 sqrt, 1 pow, 2 polar); the four arguments; the two results
+   (hexadecimal float literals are read exactly and cheaply; Z numerals of 19 digits are not).
+   Arguments are matched BITWISE ([fsame]: -0 differs from +0 -- sqrt(-0+0i) and sqrt(+0+0i) differ --
+   and NaN matches NaN, there being one NaN in Coq's binary64). *)
+Definition fsame (x y : float) : bool :=
+  if PrimFloat.eqb x y
+  then (if PrimFloat.eqb x 0%float then PrimFloat.eqb (PrimFloat.div 1%float x) (PrimFloat.div 1%float y) else true)
+  else negb (PrimFloat.eqb x x) && negb (PrimFloat.eqb y y).
+
+Fixpoint olookup (tbl : list float) (w k1 k2 k3 k4 : float) : res (cplx AF) :=
+  match tbl with
+  | w' :: a :: b :: c :: d :: r :: i :: t =>
+      if PrimFloat.eqb w w' && fsame k1 a && fsame k2 b && fsame k3 c && fsame k4 d
+      then Ok (@mkC AF r i) else olookup t w k1 k2 k3 k4
+  | _ => Panic Unwrap                               (* oracle miss *)
+  end.
+
+(* f64::max: the other operand if one is NaN *)
+Definition fmax (x y : float) : float :=
+  if negb (PrimFloat.eqb x x) then y
+  else if negb (PrimFloat.eqb y y) then x
+  else if PrimFloat.ltb x y then y else x.
+
+Definition f_finite (x : float) : bool := PrimFloat.eqb (PrimFloat.sub x x) 0%float.
+Definition F_EPS : float := Z.ldexp 1%float (-52)%Z.        (* f64::EPSILON = 2^-52 *)
+Definition F_HALF : float := Z.ldexp 1%float (-1)%Z.
+
+Definition FloatRA (tbl : list float) : RootArith := {|
+  RR := SAF; KK := ACF;
+  mkk := @mkC AF; kre := @re AF; kim := @im AF;
+  kabs := fun z : cplx AF => PrimFloat.sqrt (@abs_sqr AF z);
+  kconj := @conj AF;
+  kmulr := @cmul_r AF; kdivr := @cdiv_r AF;
+  rfabs := PrimFloat.abs; rmax := fmax;
+  rhalf := F_HALF; reps := F_EPS; rfrac := LAGUER_FRAC;
+  kfinite := fun z : cplx AF => f_finite (re z) && f_finite (im z);
+  rfinite := f_finite;
+  osqrt := fun z : cplx AF => olookup tbl 0 (re z) (im z) 0 0;
+  opow := fun z w : cplx AF => olookup tbl 1 (re z) (im z) (re w) (im w);
+  opolar := fun r th : float => olookup tbl 2 r th 0 0;
+|}.
+
+(* Polynomial<f64>::roots converts every coefficient with Cmplx::new( c, 0.0 ) (mod.rs:194-200) *)
+Definition roots_f64 (tbl : list float) (coeffs : list float) (refine : bool) :=
+  poly_solve (FloatRA tbl) (map (fun c => @mkC AF c 0%float) coeffs) refine.
+Definition roots_cplx (tbl : list float) (coeffs : list (cplx AF)) (refine : bool) :=
+  poly_solve (FloatRA tbl) coeffs refine.
+
+Definition cubic_diag_cplx (tbl : list float) (coeffs : list (cplx AF)) : res (bool * bool) :=
+  match coeffs with
+  | [d; c; b; a] => cubic_diag (FloatRA tbl) a b c d
+  | _ => Ok (false, false)
+  end.
+Definition cubic_diag_f64 (tbl : list float) (coeffs : list float) : res (bool * bool) :=
+  cubic_diag_cplx tbl (map (fun c => @mkC AF c 0%float) coeffs).
+Definition fl_diag (r : res (bool * bool)) : list Z := fl_res (fun p => fl_bool (fst p) ++ fl_bool (snd p)) r.
+
+(* output streams *)
+Definition exit_code (e : lexit) : nat := match e with Converged => 0 | Stalled => 1 | Exhausted => 2 end.
+Definition fl_lres (l : lres (cplx AF)) : list Z :=
+  fl_nat (exit_code (lwhy l)) ++ fl_nat (liters l) ++ fl_bool (lfin_in l) ++ fl_bool (lfinite l) ++ fl_bool (ltest_ok l) ++ flat_cf (lx_in l).
+(* tie: the roots only;  trace: the roots, then (exit reason, iterations, finite on entry, finite on exit, test sane) of every laguer call *)
+Definition fl_roots (r : res (list (cplx AF) * list (lres (cplx AF)))) : list Z :=
+  fl_res (fun p => fl_list flat_cf (fst p)) r.
+Definition fl_roots_trace (r : res (list (cplx AF) * list (lres (cplx AF)))) : list Z :=
+  fl_res (fun p => fl_list flat_cf (fst p) ++ fl_list fl_lres (snd p)) r.
